@@ -12,7 +12,7 @@ SPEC = dict(
                 "can_run of compiled.rs. Theorems, for every tape: ordered inputs release a prefix, unordered ones complementary "
                 "in-order sub-multisets (Split), per key for keyed inputs (KeyedRel); released ++ remaining is a permutation of the "
                 "pending items; over every history of pushes/decisions a SingletonHook's released versions never decrease; "
-                "a runnable tick with idle hooks ends run_hooks with a non-trivial decision. Tie: the same op lines (hook "
+                "a runnable tick with idle hooks that completes run_hooks made a non-trivial decision; the unconditional form is refuted on the model (F36: a tick holding an empty PassthroughSingletonHook panics for every tape; reproduced end to end, known finding). Tie: the same op lines (hook "
                 "creation, feeding, autonomous_decision with a tape, release_decision, can_run, run_hooks via a cfg-guarded "
                 "re-export) run on the real hooks with a scripted DynDriver and on the compiled model; every answer, the "
                 "driver-call log (ranges + values) and the queue contents are diffed; the property is also evaluated on the real "
@@ -24,6 +24,7 @@ SPEC = dict(
     trusted_base=["FxHashMap iteration order taken as an explicit input (association list in observed order)",
                   "dfir_rs unsync mpsc channel / VecDeque / bolero scope exercised by correspondence, not modelled",
                   "LaunchedSim::step (async DFIR progress, tick execution, inline hooks) not modelled"],
+    refuted=["HvSim.runHooks_runnable_tick_panics_refuted"],
     assumptions=["items are u32; every generate() call consumes one tape entry mapped into its range",
                  "hooks are idle (no pending manual decision) when run_hooks starts, as in the scheduler"],
 )
